@@ -104,6 +104,14 @@ impl<'de> Deserialize<'de> for ThresholdPart {
             where
                 E: de::Error,
             {
+                // same validation as the single-number form of `StepThreshold`
+                if v.is_nan() || v.is_infinite() || v < 0.0 {
+                    return Err(serde::de::Error::invalid_value(
+                        Unexpected::Float(v),
+                        &"a positive number",
+                    ));
+                }
+
                 Ok(ThresholdPart(Some(NtpDuration::from_seconds(v))))
             }
 
